@@ -89,11 +89,15 @@ AllTrue(cl) == \A c \in cl : c[2]
 Key(k)      == Canonical => k > last
 
 SelectReqs(t) == { r \in ReqsOfTask(P, t) : P.reqs[r].type # "worker" }
+\* a requirement lists MEMBERS (groups of uses): a plain worker is one use, a cumulative worker listed in a
+\* selection is the group of its unit workers (picking it takes one unit); the count rule counts members
+GroupsOf(r) == { SeqToSet(P.reqs[r].groups[g]) : g \in 1..Len(P.reqs[r].groups) }
+MembersPicked(r, pk) == Cardinality({ g \in GroupsOf(r) : g \cap pk # {} })
+PickOK(r, pk) == /\ CountOK(P.reqs[r].kind, MembersPicked(r, pk), P.reqs[r].n)
+                 /\ \A g \in GroupsOf(r) : Cardinality(g \cap pk) <= 1
 PickSets(t) ==  \* all ways of choosing workers for the selections of task t
   LET selUses == UNION { UsesOfReq(P, r) : r \in SelectReqs(t) }
-  IN  { pk \in SUBSET selUses :
-          \A r \in SelectReqs(t) :
-             CountOK(P.reqs[r].kind, Cardinality(pk \cap UsesOfReq(P, r)), P.reqs[r].n) }
+  IN  { pk \in SUBSET selUses : \A r \in SelectReqs(t) : PickOK(r, pk) }
 
 \* uses of t that take part once the selections are made
 Taking(t, pk) == { u \in UsesOfTask(P, t) : P.reqs[P.uses[u].req].type = "worker" \/ u \in pk }
@@ -109,8 +113,7 @@ StartClauses(t, pk) ==
     <<"G_start_nonneg",    now >= 0>>,
     <<"G_release",         Has(tk.release) => now >= Val(tk.release)>>,
     <<"G_selection_from_list", pk \subseteq UNION { UsesOfReq(P, r) : r \in SelectReqs(t) }>>,
-    <<"G_selection_count", \A r \in SelectReqs(t) :
-                              CountOK(P.reqs[r].kind, Cardinality(pk \cap UsesOfReq(P, r)), P.reqs[r].n)>>,
+    <<"G_selection_count", \A r \in SelectReqs(t) : PickOK(r, pk)>>,
     <<"G_horizon",         tk.kind = "F" => now + tk.dur <= P.H>>,
     <<"G_not_inside_interruption", Declarative \/ tk.kind # "V" \/ now = 0 \/
           \A u \in Taking(t, pk) : LET w == P.uses[u].worker IN ~(Interr(w, now) /\ Interr(w, now - 1))>>,
@@ -361,8 +364,8 @@ Inv_AssignmentInsideSpan ==
     /\ ~P.uses[u].dynamic => (ubs[u] = ts[t] + P.uses[u].delay_in /\ ube[u] = te[t] - P.uses[u].early_out)
 Inv_SelectionCount ==
   \A t \in T : st[t] = "done" => \A r \in ReqsOfTask(P, t) :
-     LET k == Cardinality({ u \in UsesOfReq(P, r) : ust[u] = "done" }) IN
-     IF P.reqs[r].type = "worker" THEN k = 1 ELSE CountOK(P.reqs[r].kind, k, P.reqs[r].n)
+     LET done == { u \in UsesOfReq(P, r) : ust[u] = "done" } IN
+     IF P.reqs[r].type = "worker" THEN Cardinality(done) = 1 ELSE PickOK(r, done)
 Inv_WorkAmount ==
   \A t \in T : (st[t] = "done" /\ P.tasks[t].work > 0 /\ UsesOfTask(P, t) # {}) =>
      LET us == { u \in UsesOfTask(P, t) : ust[u] = "done" } IN
